@@ -255,8 +255,13 @@ func runFaultCase(seam Seam, srcName string, src map[string]string, plans []wrap
 	fired = dest.FiredCount()
 	if fired > 0 && err == nil {
 		p := dest.Fired[0]
-		return fmt.Sprintf("swallowed/%s/%s-%s", seam.Name, p.Op.Kind, p.Mode),
-			fmt.Sprintf("%s on source %q returned nil although %s of %q failed (%s)", seam.Name, srcName, p.Op.Kind, p.Op.Path, p.Mode), fired
+		ek := ""
+		if p.ErrKind != "" {
+			// the plain error kind keeps the historical signature
+			ek = "/error-is-" + p.ErrKind
+		}
+		return fmt.Sprintf("swallowed/%s/%s-%s%s", seam.Name, p.Op.Kind, p.Mode, ek),
+			fmt.Sprintf("%s on source %q returned nil although %s of %q failed (%s, error kind %q)", seam.Name, srcName, p.Op.Kind, p.Op.Path, p.Mode, p.ErrKind), fired
 	}
 	if err == nil {
 		got, serr := wrap.Snapshot(ctx, dest.ReadWriteBucket)
@@ -310,7 +315,11 @@ func run(r *evid.Run) {
 				}
 			}
 			for _, p := range singles {
-				cases = append(cases, faultCase{seam.Name, s.Name, []wrap.Plan{p}})
+				// every single failure with every kind of error value
+				for _, ek := range wrap.ErrKinds {
+					p.ErrKind = ek
+					cases = append(cases, faultCase{seam.Name, s.Name, []wrap.Plan{p}})
+				}
 			}
 			if !r.Quick() {
 				for i := range singles {
@@ -383,13 +392,14 @@ func dedupOps(ops []wrap.Op) []wrap.Op {
 // ---- faults inside the disk bucket (verifhook points) ----
 
 type osCase struct {
-	Seam   string `json:"seam"`
-	Source string `json:"source"`
-	Label  string `json:"label"`
-	K      int    `json:"k"`
-	Short  bool   `json:"short_write"`
-	Label2 string `json:"label2,omitempty"`
-	K2     int    `json:"k2,omitempty"`
+	Seam    string `json:"seam"`
+	Source  string `json:"source"`
+	Label   string `json:"label"`
+	K       int    `json:"k"`
+	Short   bool   `json:"short_write"`
+	Label2  string `json:"label2,omitempty"`
+	K2      int    `json:"k2,omitempty"`
+	ErrKind string `json:"err_kind,omitempty"`
 }
 
 var osFaultLabels = map[string]bool{"os.put": true, "os.write": true, "os.close": true, "os.rename.before": true}
@@ -471,8 +481,17 @@ func osFaults(r *evid.Run) {
 				}
 				plans = append(plans, osCase{Seam: seam.Name, Source: s.Name, Label: oc.label, K: oc.k})
 			}
+			single := append([]osCase(nil), plans...)
+			for _, c := range single {
+				if c.Short {
+					continue
+				}
+				for _, ek := range wrap.ErrKinds[1:] {
+					c.ErrKind = ek
+					plans = append(plans, c)
+				}
+			}
 			if !r.Quick() {
-				single := append([]osCase(nil), plans...)
 				for i := range single {
 					for j := i + 1; j < len(single); j++ {
 						if single[i].Short || single[j].Short {
@@ -498,7 +517,7 @@ func osFaults(r *evid.Run) {
 						if c.Short && label == "os.write" {
 							return &hook.ShortWriteError{N: 1, Err: fmt.Errorf("short write: %w", wrap.ErrInjected)}
 						}
-						return fmt.Errorf("%s: %w", label, wrap.ErrInjected)
+						return wrap.InjectedError(label, "<hook>", c.ErrKind)
 					}
 					return nil
 				})
@@ -511,8 +530,12 @@ func osFaults(r *evid.Run) {
 					r.Distinct(fmt.Sprintf("os|%v", c))
 				}
 				if fired > 0 && err == nil {
-					r.Violate(fmt.Sprintf("swallowed-os/%s/%s", seam.Name, c.Label),
-						fmt.Sprintf("%s into a disk bucket returned nil although %s #%d failed (source %s)", seam.Name, c.Label, c.K, s.Name), c)
+					ek := ""
+					if c.ErrKind != "" {
+						ek = "/error-is-" + c.ErrKind
+					}
+					r.Violate(fmt.Sprintf("swallowed-os/%s/%s%s", seam.Name, c.Label, ek),
+						fmt.Sprintf("%s into a disk bucket returned nil although %s #%d failed (source %s, error kind %q)", seam.Name, c.Label, c.K, s.Name, c.ErrKind), c)
 				} else if err == nil {
 					got, _ := wrap.Snapshot(ctx, dest)
 					if d := equalMaps(got, seam.Expect(s.Files)); d != "" {
